@@ -56,12 +56,19 @@ SLICES['skiplist-iter'] = {
     'theorems': [S + t for t in ('dbiter_is_map_cursor_bounded', 'memiter_simOn', 'dbiter_over_holds', 'dbiter_over_memtable')],
 }
 
+SLICES['capstone'] = {
+    'what': 'no suite of its own: joins the policy and compaction slices (both tied to the code by their own suites and by tracecheck)',
+    'module': 'LcdbModel.Props.CompactionCapstone', 'gen': None,
+    'theorems': ['Lcdb.Compaction.' + t for t in ('chunks_fileOk', 'outputs_fit_gap', 'mechanism_full_stepOk', 'mechanism_full_preserves')],
+}
+
 # property -> slices (quick size, thorough size)
 PROP_SLICES = {
-    'C01': [('policy', 700, 20000), ('skiplist', 700, 20000), ('cache', 700, 20000)],
+    'C01': [('policy', 700, 20000), ('skiplist', 700, 20000), ('cache', 700, 20000), ('capstone', 0, 0)],
     'C10': [('cache', 1200, 40000), ('skiplist', 600, 20000)],
     'C18': [('cache', 600, 20000)],
-    'C14': [('policy', 1500, 60000)],
+    'C14': [('policy', 1500, 60000), ('capstone', 0, 0)],
+    'C06': [('capstone', 0, 0)],
     'C07': [('skiplist', 900, 30000), ('skiplist-iter', 0, 0)],
     'C02': [('wfile', 900, 30000)],
     'C03': [('wfile', 700, 20000)],
